@@ -62,7 +62,7 @@ func main() {
 	// deviation) can touch a stream of the strictly judged classes.
 	var kids []*child
 	var wg sync.WaitGroup
-	pool := func(name string, n int, part []*Scenario) {
+	pool := func(name string, n int, part []*Scenario, env ...string) {
 		ch := make(chan *Scenario, len(part))
 		for _, s := range part {
 			ch <- s
@@ -70,6 +70,7 @@ func main() {
 		close(ch)
 		for i := 0; i < n; i++ {
 			k := newChild(fmt.Sprintf("%s%d", name, i), bin)
+			k.env = env
 			kids = append(kids, k)
 			wg.Add(1)
 			go func() {
@@ -81,9 +82,11 @@ func main() {
 			}()
 		}
 	}
-	var withKA, others []*Scenario
+	var withKA, others, oneP []*Scenario
 	for _, s := range scs {
-		if s.ka() {
+		if s.OneP {
+			oneP = append(oneP, s)
+		} else if s.ka() {
 			withKA = append(withKA, s)
 		} else {
 			others = append(others, s)
@@ -92,6 +95,11 @@ func main() {
 	pool("ka", 2, withKA)
 	pool("st", 2, others)
 	wg.Wait()
+	// the one-processor gate scenarios run alone: their point is who gets the processor when
+	if len(oneP) > 0 {
+		pool("p1", 1, oneP, "GOMAXPROCS=1")
+		wg.Wait()
+	}
 
 	// (A) aim at the counterexample schedules
 	if os.Getenv("VERIF_REPLAY") == "" {
@@ -139,7 +147,7 @@ func modelChecks(c *vlib.Check, thorough bool) cexSet {
 	c.Set("mc_repaired", map[string]any{"MaxN": maxN, "MaxTicks": maxTicks, "distinct": res.Distinct, "generated": res.Generated, "depth": res.Depth, "wall_s": res.WallS})
 	if thorough {
 		var zero []string
-		for _, a := range []string{"MWriteBegin", "MWriteEnd", "MFlushBegin", "MFlushEnd", "MStartKA", "MRecv", "MRecvNil", "MReset", "Tick",
+		for _, a := range []string{"MWriteBegin", "MWriteEnd", "MFlushBegin", "MFlushEnd", "MStartKA", "MRecv", "MRecvNil", "MReset", "MClose", "Tick",
 			"KPingBegin", "KPingEnd", "KFlushBegin", "KFlushEnd", "KStop", "ServerCancel", "FinBegin", "FinEnd", "Disconnect",
 			"MMRecvAdd", "MMRecvNil", "MMDoneSig", "MMDoneFlush", "MMTick", "MMFlushTick", "MMTickerStop"} {
 			if res.ActionCount[a] == 0 {
@@ -380,7 +388,7 @@ func judge(c *vlib.Check, scs []*Scenario, kids []*child, st *tlcStats) {
 	byClass := map[string]int{}
 	var live []*Scenario
 	var gates []map[string]any
-	crashes := 0
+	crashes, handoffs, onePs := 0, 0, 0
 	for _, s := range scs {
 		c.AddEvals(1)
 		byClass[s.Class]++
@@ -391,7 +399,7 @@ func judge(c *vlib.Check, scs []*Scenario, kids []*child, st *tlcStats) {
 		}
 		if g := s.Gate; s.Hold != "" && g != nil {
 			gates = append(gates, map[string]any{"hold": s.Hold, "interval_ns": s.IntervalNs, "held": g.Held, "other_write_entered_while_held": g.Met,
-				"overlaps": g.Overlaps, "after_return": g.AfterReturn, "after_final": g.AfterFinal, "kind": s.Kind})
+				"overlaps": g.Overlaps, "after_return": g.AfterReturn, "after_final": g.AfterFinal, "after_hold": g.AfterHold, "kind": s.Kind, "one_processor": s.OneP})
 			var ov []string
 			for _, o := range g.Overlaps {
 				if strings.Contains(o, "ping") {
@@ -412,6 +420,12 @@ func judge(c *vlib.Check, scs []*Scenario, kids []*child, st *tlcStats) {
 				c.Violate("mm:responsewriter-used-after-handler-returned", fmt.Sprintf("gate writer (hold=%s): after transport.MultipartMixed.Do had returned the ResponseWriter was still used: %v\n%s", s.Hold, g.AfterReturn, describe(s)), s)
 			} else if len(g.AfterReturn) > 0 {
 				c.Violate(keyRaceFinish, fmt.Sprintf("gate writer (hold=%s): after transport.SSE.Do had returned the ResponseWriter was still used: %v - TLC's counterexample to CompleteLast / NoUseAfterFinish replayed deterministically\n%s", s.Hold, g.AfterReturn, describe(s)), s)
+			}
+			if s.OneP && !strings.HasSuffix(s.Hold, "flush:complete") && len(g.AfterHold) > 0 && strings.HasPrefix(g.AfterHold[len(g.AfterHold)-1], "ping@") {
+				handoffs++ // the parked keepAlive was handed mu the moment the second slow section ended
+			}
+			if s.OneP {
+				onePs++
 			}
 			if s.Hold != "return" && !g.Held && !s.Crashed {
 				vlib.Infra("gate scenario %s never reached the call it was to hold (%s)", s.ID, s.Hold)
@@ -436,6 +450,10 @@ func judge(c *vlib.Check, scs []*Scenario, kids []*child, st *tlcStats) {
 	c.Set("streams_by_class", byClass)
 	c.Set("server_crashes", crashes)
 	c.Set("gate_replays", gates)
+	c.Set("one_processor_handoffs_demonstrated", handoffs)
+	if onePs > 0 && handoffs == 0 && c.Violations() == 0 {
+		vlib.Infra("vacuous: in none of the one-processor slow-flush pairs was the parked keepAlive goroutine handed the mutex at the end of the second section (after_hold shows no immediate ping) - the forced schedule did not happen")
+	}
 
 	// TLC: strict first, then the deviation-tolerant configurations
 	strict := accepted(live, true, true, true, "strict", st)
